@@ -41,9 +41,15 @@ def scan(P):
             api[(fn, rs)] = sm
     uses, ready = {}, {}
     clears = {}
+    links = {}
     for mk, h in list(K.memo.items()):
         if isinstance(mk, tuple) and len(mk) == 2 and mk[1] == 'hook':
             F = h.F
+            for (e, live, rs) in getattr(h, 'link_stores', ()):
+                l_ = links.setdefault((P.key(F), e), {'ok': True, 'entries': []})
+                if live:
+                    l_['ok'] = False
+                    l_['entries'].append((mk[0][1], str(rs)))
             for (e, ok, rs) in getattr(h, 'info_clears', ()):
                 c_ = clears.setdefault((P.key(F), e), {'ok': True, 'entries': []})
                 if not ok:
@@ -64,6 +70,7 @@ def scan(P):
                     r['ok'] = False
                     r['entries'].append((ent, str(rs)))
     K.info_clears = clears
+    K.link_stores = links
     _SCAN[id(P)] = (K, api, uses, ready)
     return _SCAN[id(P)]
 
@@ -109,6 +116,17 @@ def c03(chk, P):
                f'reached with the {"decoder" if u["need"] == "vd" else "block"} cleared (entry state / ready_state at the call: '
                f'{u["entries"][:2]}): {u["callee"]} dereferences it')
     chk.floor('R03.1', 40)
+    chk.rule('R03.7', 'the link index moves only while no decoder is live: every store to vf->current_link in vorbisfile.c is reached, '
+             'from every consistent entry state, only with the decoder cleared (K5 state).  The decoder was sized from the info '
+             'of the link it was built for; changing the index under it makes the read functions take the channel count of '
+             'another link and index the decoder\'s channel vectors with it')
+    for (k, e), u in sorted(K.link_stores.items(), key=lambda kv: (kv[0][0], P.fn[kv[0][0]].ex[kv[0][1]]['loc'])):
+        F = P.fn[k]
+        chk.ob('R03.7', k, f'link-index-stored-with-decoder-cleared@{F.loc(e)}', u['ok'], F.where(e),
+               f'`{F.s(e)}`: the decoder is cleared in every state that reaches the store' if u['ok'] else
+               f'`{F.s(e)}` is reachable with the decoder live (entry state / ready_state at the store: {u["entries"][:2]}): the '
+               'decoder built for one link keeps running under another link\'s info')
+    chk.floor('R03.7', 3)
     chk.notes.append(f'K5: {K.runs} function analyses; recursion assumed state-preserving for {sorted(K.recursion_assumed)}')
 
 
